@@ -120,7 +120,17 @@ UNITS["C10"] = [
                       "IndexMap / VecDeque / Iterator::all replaced by contract stand-ins that keep the real closures"]),
 ]
 
+UNITS["C14"] = [
+    dict(kind="verus", name="c14_updates", template="specs/c14_updates.vrs",
+         under_contract=["frag_candidate", "frag_trim", "frag_parity"],
+         vacuity=["frag_candidate", "frag_trim", "frag_parity"],
+         assumptions=["IndexMap (ordered) stand-ins for the cl cache and the pending buffer; TableName opaque",
+                      "monotonicity holds while a key stays in the 1000..2000-entry cache (eviction of the key ends the guarantee — part of the contract)",
+                      "NOT decided: that every committed change reaches match_changes, channel delivery, unpack_columns of the pk (see C09)"]),
+]
+
 NOTES = {
+    "C14": "update-feed kernels: causal-length cache filter (latest state wins, older-after-newer dropped), cache trim keeps newest, delete/update parity",
     "C10": "seen-cache kernel of handle_changes: suppression test, drop-oldest eviction, cache insertion; cleared-decision of process_multiple_changes",
     "C03": "decision kernels of 'applied iff covered': Changeset::is_complete, PartialVersion::is_complete (shared with C02), insert_partial union (C02), completeness triggers",
     "C05": "safety guards of the sync server: pre-filter, empties decisions, partial-range clipping and its SQL overlap clause; send_change_chunks in unit c05_send",
